@@ -309,12 +309,16 @@ static void c10_run(int tier, long cfg) { (void) tier; c10_build(); c10_body(&c1
 /* ================================================================= C11 */
 
 static const int limits[] = { 32, 64, 256, 1024, 2048 };
+#define NTWO 24
+#define NRLF 2
 static void c11_two_starts(long k);
+static void c11_rlimit_fault(long k);
 enum { RC_DEFAULT, RC_PIPES, RC_DISCARD, RC_HANDLES, RC_FILES, NRC };
 
 static void c11_run(int tier, long cfg)
 {
   int nl = tier ? 5 : 3;
+  if (cfg >= (long) nl * NRC * 243 + NTWO) { c11_rlimit_fault(cfg - (long) nl * NRC * 243 - NTWO); return; }
   if (cfg >= (long) nl * NRC * 243) { c11_two_starts(cfg - (long) nl * NRC * 243); return; }
   int L = limits[cfg % nl];
   cfg /= nl;
@@ -437,8 +441,52 @@ static void c11_two_starts(long k)
   for (int i = 0; i < 3; i++) close(fds[i]);
 }
 
-#define NTWO 24
-static long c11_n(int tier) { return (long) (tier ? 5 : 3) * NRC * 243 + NTWO; }
+
+/* the descriptor limit cannot be read in the forked child (getrlimit fails, or answers "unlimited"): either the start fails cleanly or the child
+ * still sees nothing but its streams and the exit handle - also with the caller's descriptors above 1024 */
+static void c11_rlimit_fault(long k)
+{
+  memset(&vk_cfg, 0, sizeof vk_cfg);
+  vk_cfg.real_exec = 1;
+  vk_cfg.vlimit = 2048;
+  vk_cfg.faults_on = 1;
+  vk_cfg.fault_bound = 1;
+  vk_cfg.fault_calls = 1ull << C_GETRLIMIT;
+  snprintf(key, sizeof key, "h_c11|limit-unreadable|redirect=%ld", k);
+  hx_desc("%s", key);
+  snprintf(key, sizeof key, "h_c11|limit-unreadable");
+  hx_begin();
+  int src = open("pool-file3", O_RDWR | O_CREAT, 0644);
+  static const int fds[4] = { 11, 1030, 1100, 2047 };
+  for (int i = 0; i < 4; i++) { dup2(src, fds[i]); fcntl(fds[i], F_SETFD, i == 1 ? FD_CLOEXEC : 0); }
+  close(src);
+  reproc_options o;
+  memset(&o, 0, sizeof o);
+  if (k == 1) o.redirect.err.type = REPROC_REDIRECT_PIPE;
+  vk_script("");
+  reproc_t *p = hx_new();
+  vk_faults_armed = 1;
+  int r = hx_start(p, hx_helper_argv(), o);
+  vk_faults_armed = 0;
+  if (r < 0) {
+    int explained = 0;
+    for (int i = 0; i < S->nevents; i++)
+      if (S->ev[i].api == hx_last_api && S->ev[i].injected && (r == -S->ev[i].injected || (S->ev[i].injected < 0 && r == -EMFILE))) explained = 1;
+    if (!explained) vk_violation("C04", "failure-cause", key, "start returned %s with no failing call behind it", hx_errname(r));
+    for (int i = 0; i < vk_nchildren; i++)
+      if (vk_children[i].state != CH_REAPED && vk_children[i].state != CH_DEAD_PREHELLO) vk_violation("C04", "failed-start-leaves-child", key, "a child was left behind after %s", hx_errname(r));
+    hx_destroy(p);
+  } else {
+    struct vk_child *ch = &vk_children[vk_nchildren - 1];
+    if (!ch->have_hello) vk_violation("C04", "success-without-program", key, "no hello");
+    else if (inherit_check("C11", ch, NULL) == 0) vk_hit(CL_POOL_TOP);
+    reproc_stop_actions kk = { { REPROC_STOP_KILL, REPROC_INFINITE }, { REPROC_STOP_NOOP, 0 }, { REPROC_STOP_NOOP, 0 } };
+    reproc_stop(p, kk);
+    hx_destroy(p);
+  }
+  for (int i = 0; i < 4; i++) close(fds[i]);
+}
+static long c11_n(int tier) { return (long) (tier ? 5 : 3) * NRC * 243 + NTWO + NRLF; }
 
 const struct hx_harness h_c10 = { "C10", "h_c10", c10_n, c10_run, redir_clauses, NULL };
 const struct hx_harness h_c11 = { "C11", "h_c11", c11_n, c11_run, redir_clauses, NULL };
